@@ -553,6 +553,18 @@ func (adb *AccountsDB) removeDataTrie(baseAcc baseAccountHandler) error {
 	}
 	adb.journalize(entry)
 
+	// if the account is re-created with storage before this removal is reverted, its new data trie replaces the
+	// removed account's one in the data tries holder; reverting the removal has to put the right trie back
+	removedTrie := adb.dataTries.Get(baseAcc.AddressBytes())
+	if check.IfNil(removedTrie) {
+		removedTrie = dataTrie
+	}
+	holderEntry, err := NewJournalEntryDataTrieHolder(baseAcc.AddressBytes(), removedTrie, adb.dataTries)
+	if err != nil {
+		return err
+	}
+	adb.journalize(holderEntry)
+
 	return nil
 }
 
